@@ -1,0 +1,65 @@
+//go:build verif
+// +build verif
+
+package backend
+
+import (
+	"net"
+	"sort"
+
+	"github.com/XiaoMi/Gaea/mysql"
+	"github.com/XiaoMi/Gaea/util"
+	"github.com/XiaoMi/Gaea/util/sync2"
+)
+
+// Add-only exports for the verification harness in /verif (build tag verif),
+// property C20: session settings of pooled connections.
+
+// VerifNewDirectConnection returns a DirectConnection in the state connect()
+// leaves it in after a successful handshake (protocol 4.1, autocommit on),
+// speaking over the supplied transport instead of a dialled TCP socket.
+// version is the server version string of the handshake ("" leaves
+// versionCompare nil, as before any handshake).
+func VerifNewDirectConnection(conn net.Conn, charset string, collationID mysql.CollationID, version string) *DirectConnection {
+	dc := &DirectConnection{
+		addr:             "verif",
+		charset:          charset,
+		collation:        collationID,
+		defaultCharset:   charset,
+		defaultCollation: collationID,
+		closed:           sync2.NewAtomicBool(false),
+		sessionVariables: mysql.NewSessionVariables(),
+		capability:       mysql.ClientProtocol41 | mysql.ClientSecureConnection | mysql.ClientTransactions | mysql.ClientLongFlag,
+		status:           mysql.ServerStatusAutocommit,
+		moreRowExists:    false,
+	}
+	dc.conn = mysql.NewConn(conn)
+	if version != "" {
+		dc.version = version
+		dc.versionCompare = util.NewVersionCompareStatus(version)
+	}
+	return dc
+}
+
+// VerifNewPooledConnect wraps a DirectConnection as the PooledConnect the
+// session executor works with. It belongs to no pool: Recycle must not be
+// called on it.
+func VerifNewPooledConnect(dc *DirectConnection) PooledConnect {
+	return &pooledConnectImpl{directConnection: dc}
+}
+
+// VerifBelief reports what the connection believes the backend session holds:
+// charset, collation, the session variables (name, value) sorted by name and
+// the names waiting to be reset to DEFAULT.
+func VerifBelief(dc *DirectConnection) (charset string, collation mysql.CollationID, names []string, values []interface{}, unused []string) {
+	all := dc.sessionVariables.GetAll()
+	for name := range all {
+		names = append(names, name)
+	}
+	sort.Strings(names)
+	for _, name := range names {
+		values = append(values, all[name].Get())
+	}
+	unused = mysql.VerifUnusedNames(dc.sessionVariables)
+	return dc.charset, dc.collation, names, values, unused
+}
